@@ -18,6 +18,7 @@ package boltz
 
 import (
 	"bytes"
+	"context"
 	"fmt"
 	"github.com/openziti/foundation/v2/errorz"
 	"github.com/openziti/foundation/v2/stringz"
@@ -1054,8 +1055,24 @@ func (index *fkDeleteCascadeConstraint) ProcessBeforeDelete(ctx *IndexingContext
 		}
 
 		if index.cascadeType == CascadeDelete {
+			// the entity whose delete is cascading is still present while its referrers are deleted. If one of them
+			// is (directly or through further cascades) referenced by it, or it references itself, the cascade comes
+			// back to an entity whose delete is already under way further up the call chain: that one must be
+			// stepped over, or the deletes recurse until the stack is exhausted
+			inProgress := cascadesInProgress(ctx.Ctx)
+			self := index.symbol.GetLinkedType().GetEntityType() + "\x00" + string(ctx.RowId)
+			if _, nested := inProgress[self]; !nested {
+				inProgress[self] = struct{}{}
+				defer delete(inProgress, self)
+			}
+
 			cursor := targetStore.IterateValidIds(ctx.Tx(), filter)
 			for cursor.IsValid() {
+				if _, busy := inProgress[targetStore.GetEntityType()+"\x00"+string(cursor.Current())]; busy {
+					cursor.Next()
+					continue
+				}
+
 				if ctx.ErrHolder.SetError(targetStore.DeleteById(ctx.Ctx, string(cursor.Current()))) {
 					return
 				}
@@ -1066,6 +1083,21 @@ func (index *fkDeleteCascadeConstraint) ProcessBeforeDelete(ctx *IndexingContext
 			}
 		}
 	}
+}
+
+type cascadesInProgressKey struct{}
+
+// cascadesInProgress returns the set of entities (entity type, id) whose cascading delete is currently running in the
+// given context, attaching an empty one to the context on first use
+func cascadesInProgress(ctx MutateContext) map[string]struct{} {
+	if result, ok := ctx.Context().Value(cascadesInProgressKey{}).(map[string]struct{}); ok {
+		return result
+	}
+	result := map[string]struct{}{}
+	ctx.UpdateContext(func(c context.Context) context.Context {
+		return context.WithValue(c, cascadesInProgressKey{}, result)
+	})
+	return result
 }
 
 func (index *fkDeleteCascadeConstraint) Initialize(*bbolt.Tx, errorz.ErrorHolder) {
